@@ -14,7 +14,6 @@ verus! {
             let code = rt_code_of(rt.msg.caller.id);
             code.is_some() && rt_builtin_type(code->Some_0).is_some() && rt_builtin_type(code->Some_0)->Some_0 != Type::EVM
         })),
-        r.is_err() ==> r->Err_0.code == 18,
 //@ end
 
 } // verus!
